@@ -359,3 +359,33 @@ Section ExamplesSig.
     /\ call_signal_direct [] (fun _ _ => None) e0 50 [] p0 "r1" "step1" "generic-id" nat_a = (SErr CENoSuchSignal, [], []).
   Proof. split; [|split; [|split]]; vm_compute; reflexivity. Qed.
 End ExamplesSig.
+
+(* (5') the per-run step-data statement for histories over ALL FOUR entry points: CallStep, CallSignal, the step's own
+   Call and the step's own CallSignal (sop2 / exec_ops2, Call/StepSig.v) *)
+From Verif Require Import Proofs.StepSigHist.
+Theorem C11_stepdata_once_all_entry_points : forall words pu e fuel p ops,
+  let res := fst (exec_ops2 words pu e fuel p ops) in
+  let ps := snd (exec_ops2 words pu e fuel p ops) in
+  (forall sid st, alookup sid p = Some st -> sd_has_init st = true ->
+     t_inits (tab_of ps sid) = N.of_nat (List.length (t_entries (tab_of ps sid))) /\
+     NoDup (map fst (t_entries (tab_of ps sid))) /\ NoDup (map snd (t_entries (tab_of ps sid)))) /\
+  (forall en, In en (all_logs res) ->
+     alookup (lk_run en) (t_entries (tab_of ps (lk_step en))) = Some (lk_data en)) /\
+  (forall e1 e2, In e1 (all_logs res) -> In e2 (all_logs res) ->
+     lk_step e1 = lk_step e2 -> lk_run e1 = lk_run e2 -> lk_data e1 = lk_data e2).
+Proof. exact stepdata_once_history2. Qed.
+Print Assumptions C11_stepdata_once_all_entry_points.
+
+Example C11_ex_history_direct_signal :
+  let e0 := mkEnv [] [] (mkOracles (fun _ => None) (fun _ => true)) in
+  let prop_ (t : schema) (req : bool) : property := mkProp t None req [] [] [] None [] false false None in
+  let in_scope := SScope [("In", SObject "In" false [("a", prop_ (SInt (Some 0%Z) None None) true)])] "In" in
+  let sig_a := SScope [("Sig", SObject "Sig" false [("x", prop_ (SString None (Some 3%Z) None) false)])] "Sig" in
+  let p0 : plugin := [("step1", mkStepD in_scope [] [("stop", sig_a)] true)] in
+  let nat_a := VMap t_str_map false [(vstr "x", vstr "s")] in
+  let ops := [OpDirectSignal "r1" "step1" "stop" nat_a;
+              OpBase (OpSignal "r1" "step1" "stop" (VMap t_any_map false [(vstr "x", vstr "s")]));
+              OpDirectSignal "r2" "step1" "stop" nat_a] in
+  snd (exec_ops2 [] (fun _ _ => None) e0 50 p0 ops) = [("step1", mkTab [("r2", Some 1%N); ("r1", Some 0%N)] 2%N)]
+  /\ map lk_data (all_logs (fst (exec_ops2 [] (fun _ _ => None) e0 50 p0 ops))) = [Some 0%N; Some 0%N; Some 1%N].
+Proof. split; vm_compute; reflexivity. Qed.
